@@ -457,9 +457,80 @@ func runPair(h []int) (out xplore.Out) {
 	return
 }
 
+// linkVariants: header links (not covered by the block hash) that anybody can attach to a VALID block.
+var linkVariants = []string{"link-from-unknown-source", "link-with-wrong-source-height", "link-with-garbage-signature", "link-in-slot-beyond-the-validator-set"}
+
+// runLink: mode 8 = the valid block at pos arrives first carrying such a link, then as it is; mode 9 = the same with a
+// restart in between. Whatever the node does with the first copy, the valid chain must be taken completely.
+func runLink(h []int) (out xplore.Out) {
+	mode, pos, vi := h[0], h[1], h[2]
+	name := linkVariants[vi]
+	viol := func(key, what string) {
+		out.Viols = append(out.Viols, xplore.Viol{Key: key, What: fmt.Sprintf("%s on the valid block at position %d (height %d), mode %d: %s", name, pos, valid[pos].Height, mode, what)})
+	}
+	w := chainlab.NewWorld(net, P.Tip, P.Base)
+	in, err := w.NewInst()
+	if err != nil {
+		return xplore.Out{Viols: []xplore.Viol{{Key: "infra-newnode", What: err.Error()}}}
+	}
+	cp := *valid[pos].Block
+	cp.SupLinks = nil
+	gen := net.Gen.Hash()
+	sig := labnet.VoteSig(net.Keys[0], gen, valid[pos].Hash())
+	switch vi {
+	case 0:
+		cp.SupLinks.AddSupLink(0, bc.NewHash([32]byte{0xde, 0xad}), sig, 0)
+	case 1:
+		cp.SupLinks.AddSupLink(7, gen, sig, 0)
+	case 2:
+		cp.SupLinks.AddSupLink(0, gen, make([]byte, 64), 0)
+	case 3:
+		cp.SupLinks.AddSupLink(0, gen, sig, 9)
+	}
+	for i := 1; i < pos; i++ {
+		if orphan, err := deliver(in.Node, valid[i].Block); err != nil || orphan {
+			viol("valid-block-refused", fmt.Sprintf("l%d before: orphan=%v err=%v", i, orphan, err))
+			return
+		}
+	}
+	_, ferr := in.Node.Chain.ProcessBlock(&cp)
+	if mode == 9 {
+		nd, err := labnet.NewNode(in.DB)
+		if err != nil {
+			viol("restart-failed", err.Error())
+			return
+		}
+		in.Node = nd
+	}
+	for i := pos; i <= last; i++ {
+		orphan, err := deliver(in.Node, valid[i].Block)
+		out.Checks++
+		if orphan || err != nil {
+			viol("valid-block-refused-after-copy-with-bad-header-link:"+name, fmt.Sprintf("l%d: orphan=%v err=%v (the first copy was answered with err=%v)", i, orphan, err, ferr))
+		}
+	}
+	best := in.Node.Chain.BestBlockHeader()
+	out.Checks++
+	if best.Hash() != valid[last].Hash() {
+		viol("best-chain-differs-from-run-without-bad-link:"+name, fmt.Sprintf("best height %d, expected the valid tip at height %d", best.Height, valid[last].Height))
+	}
+	out.Steps = last + 1
+	out.Digest = fmt.Sprintf("%v", h)
+	if ferr != nil {
+		out.Outcome = "copy-with-bad-link-refused"
+	} else {
+		out.Outcome = "copy-with-bad-link-taken"
+	}
+	in.DB.Wipe()
+	return
+}
+
 func runCase(h []int, _ json.RawMessage) (out xplore.Out) {
 	if h[0] == 2 || h[0] == 3 {
 		return runPair(h)
+	}
+	if h[0] == 8 || h[0] == 9 {
+		return runLink(h)
 	}
 	mode, pos, mi := h[0], h[1], h[2]
 	m := muts[mi]
@@ -657,6 +728,13 @@ func main() {
 			}
 		}
 	}
+	for mode := 8; mode <= 9; mode++ {
+		for _, pos := range positions {
+			for vi := range linkVariants {
+				items = append(items, []int{mode, pos, vi})
+			}
+		}
+	}
 	for mode := 2; mode <= 3; mode++ {
 		for _, pos := range positions {
 			for vi := range pairVariants {
@@ -665,6 +743,9 @@ func main() {
 		}
 	}
 	spec.Describe = func(h []int) interface{} {
+		if h[0] == 8 || h[0] == 9 {
+			return map[string]interface{}{"mode": map[int]string{8: "valid block first delivered carrying a bad header link, then as it is", 9: "the same with a restart in between"}[h[0]], "position": h[1], "link": linkVariants[h[2]]}
+		}
 		if h[0] == 2 || h[0] == 3 {
 			return map[string]interface{}{"mode": []string{"", "", "pair on a side branch that outgrows the main chain (fork switch)", "child delivered before its parent (both connect in one call)"}[h[0]], "position": h[1], "pair": pairVariants[h[2]]}
 		}
